@@ -574,6 +574,22 @@ func failLabel(o *op) string {
 	return k
 }
 
+// allFailLabels: every distinct failure kind injected by the op, in injection order.
+func allFailLabels(o *op) string {
+	var out []string
+	seen := map[string]bool{}
+	for _, f := range o.Fails {
+		if !seen[f.Kind] {
+			seen[f.Kind] = true
+			out = append(out, f.Kind)
+		}
+	}
+	if len(out) == 0 {
+		return "none"
+	}
+	return strings.Join(out, "+")
+}
+
 func where(o *op) string {
 	switch {
 	case o.Kind == "start":
@@ -755,7 +771,7 @@ func (r *runner) guarded(i int, o *op, what string, f func(), control func(ctl *
 	}
 	r.hung = true
 	if ctlOK {
-		r.report(i, fmt.Sprintf("post-failure-probe-hangs:%s:%s", r.eng.name, failLabel(o)),
+		r.report(i, fmt.Sprintf("post-failure-probe-hangs:%s:%s", r.eng.name, allFailLabels(o)),
 			fmt.Sprintf("op %d %s (outcome %s): %s did not return within %v although the same probe on a fresh %s runtime returned", i, o.desc(), o.WantClass, what, 2*hangBound, r.eng.name))
 	} else {
 		r.inconcl = append(r.inconcl, "probe-timeout-without-control")
@@ -852,10 +868,10 @@ func runHistory(e *engine, ops []*op, probeSel func(i int) bool, log bool) *runn
 		if failing || probeSel(i) || i == len(ops)-1 {
 			line += " | " + r.probe(i, o, failing)
 		}
-		r.trans = append(r.trans, line)
 		if r.hung {
-			break
+			break // the transcript line of this operation is incomplete: not compared
 		}
+		r.trans = append(r.trans, line)
 		if len(r.findings) > 0 {
 			// everything later in this history would be a consequence of the first deviation
 			break
